@@ -195,6 +195,7 @@ func (s *simStage) Name() string { return s.name }
 func (s *simStage) Start(ctx context.Context, _ pipe.Env, stdin io.ReadCloser) (io.ReadCloser, error) {
 	s.stdin = stdin
 	s.out = newSimPipe(s.plan.PipeCap, s.plan.ReadChunks)
+	s.out.yields = s.plan.Yields
 	s.killed = make(chan struct{})
 	s.run.log(s.kind, "start", 0)
 	go s.actor()
